@@ -331,7 +331,7 @@ class T:
     def prove(self, clause, goal, assumptions=(), kind="ensures", replay=None, timeout_ms=None, use_pre=True,
               tactic=None, retry=True):
         """pre /\\ facts /\\ assumptions => goal."""
-        if self.clause_filter is not None and not self.clause_filter.search(clause):
+        if self.clause_filter is not None and kind != "bounded" and not self.clause_filter.search(clause):
             return None  # this task runs as a dependency of another property: only the clauses that property consumes
         if isinstance(goal, bool):
             goal = z3.BoolVal(goal)
